@@ -276,6 +276,8 @@ async fn run_case(case: &Case, ctx: &mut Ctx) -> CaseResult {
             own
         );
         // ---- other rounds / other nodes ---------------------------------------------------
+        // verdicts of ProcessProposal(decided) on the other nodes: (node, path so far, verdict)
+        let mut decided_verdicts: Vec<(usize, String, Result<(), String>)> = Vec::new();
         for n in 0..3 {
             let schedule = plan.schedules.get(n).cloned().unwrap_or_default();
             for step in schedule {
@@ -305,12 +307,15 @@ async fn run_case(case: &Case, ctx: &mut Ctx) -> CaseResult {
                             continue;
                         }
                         if let Some((ctx_o, txs)) = candidates.get(&of).cloned() {
-                            let _ = nodes[n].process_proposal(ctx_o.process_request(txs)).await;
+                            let verdict = nodes[n].process_proposal(ctx_o.process_request(txs)).await;
                             paths[n].push_str(if of == proposer {
                                 ",Process(decided)"
                             } else {
                                 ",Process(other)"
                             });
+                            if of == proposer {
+                                decided_verdicts.push((n, paths[n].clone(), verdict));
+                            }
                         }
                     }
                     Step::ProcessCorrupted(sel) => {
@@ -327,10 +332,11 @@ async fn run_case(case: &Case, ctx: &mut Ctx) -> CaseResult {
                         if n == proposer {
                             continue;
                         }
-                        let _ = nodes[n]
+                        let verdict = nodes[n]
                             .process_proposal(decided_ctx.process_request(decided.clone()))
                             .await;
                         paths[n].push_str(",Process(decided)");
+                        decided_verdicts.push((n, paths[n].clone(), verdict));
                     }
                     Step::Restart => {
                         nodes[n].restart().await;
@@ -340,6 +346,30 @@ async fn run_case(case: &Case, ctx: &mut Ctx) -> CaseResult {
             }
         }
         paths[3].push_str("sync");
+        // The proposer accepted the decided block on this committed state: every other node that
+        // is asked to validate it must accept it too, whatever it was asked before.
+        let mut undecidable = false;
+        for (n, path, verdict) in &decided_verdicts {
+            let Err(error) = verdict else {
+                continue;
+            };
+            // the shape recorded as C06's known finding (transactions constructed against the
+            // block-start state) is C06's to report; such a block cannot be decided
+            if error.contains("failed to construct checked transaction") && error.contains("not authorized") {
+                ctx.label("history-ends:c06-known-shape:tx-constructed-against-block-start-state");
+                undecidable = true;
+                continue;
+            }
+            vensure!(
+                false,
+                "decided-block-accepted-on-one-path-rejected-on-another",
+                "height {height}: the proposer's ProcessProposal accepted the decided block, but node {n} (path {}) rejected it: {error}",
+                path.trim_start_matches(',')
+            );
+        }
+        if undecidable {
+            break;
+        }
         // ---- decision ---------------------------------------------------------------------
         let mut results = Vec::new();
         for node in &mut nodes {
@@ -420,6 +450,7 @@ pub fn run(args: &[String]) -> ! {
                    mempools, generated votes / vote-extension prices for the last commit, a proposer, and \
                    per node 0..3 pre-decision steps {PrepareOwn, Process(other round), \
                    Process(corrupted), Process(decided), Restart}; a 4th node only syncs. Oracle: \
+                   every ProcessProposal(decided) on another node accepts (the proposer did); \
                    FinalizeBlock all-Ok-or-all-Err, equal responses, equal app hash and full state dump. \
                    Non-trivial: a height whose block contains user transactions and that is reached over \
                    >= 3 distinct call paths",
